@@ -939,6 +939,10 @@ class SupportComplexDataType(Element):
                 datatype != self.datatype:
             raise OperationNotAllowed("Cannot change datatype using STRICT validation")
 
+        if hasattr(self, 'children') and len(self.children) >= 1 and \
+                not is_base_datatype(self.datatype, self.version):
+            raise OperationNotAllowed("Cannot change datatype: the Element already contains children")
+
         # This will change the structure of the Field/Component so it is done only if the structure
         # is really changed. That's because the first time the datatype is set by the Element._find_structure method
         if not is_base_datatype(datatype, self.version) and \
